@@ -374,7 +374,20 @@ func (d *digest) sum(fr *frame) value {
 	}
 	if b, ok := goBytes(d.data); ok {
 		r := d.concrete(b)
-		px.crcApps = append(px.crcApps, &crcApp{alg: d.algKey(), args: append([]value{}, d.data...), res: ts.Const(w, r)})
+		rc := ts.Const(w, r)
+		// tie earlier idealised applications (same algorithm and length) to this concrete evaluation: equal
+		// inputs ⇔ equal results (an input that the path condition has meanwhile pinned must hash to the real value)
+		for _, a := range px.crcApps {
+			if a.alg != d.algKey() || len(a.args) != len(d.data) || a.res.op == opConst {
+				continue
+			}
+			eq := ts.tru
+			for i := range d.data {
+				eq = ts.And(eq, ts.Cmp(opEq, ts.termOf(a.args[i]), ts.termOf(d.data[i])))
+			}
+			px.AddPC(ts.Cmp(opEq, eq, ts.Cmp(opEq, a.res, rc)), "ideal checksum agrees with concrete evaluation")
+		}
+		px.crcApps = append(px.crcApps, &crcApp{alg: d.algKey(), args: append([]value{}, d.data...), res: rc})
 		return fromBits(kind, r)
 	}
 	// CRCs are affine over GF(2): with few symbolic bytes the exact value is
